@@ -35,6 +35,24 @@ func (p *patternReader) Read(b []byte) (int, error) {
 	return p.r.Read(b)
 }
 
+// seekPatternReader is a seekable source that hands its bytes out in short reads (an HTTP range reader, a file on a
+// network mount): seeking is passed through, reads are fragmented by the pattern.
+type seekPatternReader struct {
+	rs      io.ReadSeeker
+	pattern []int
+	i       int
+}
+
+func (p *seekPatternReader) Read(b []byte) (int, error) {
+	k := p.pattern[p.i%len(p.pattern)]
+	p.i++
+	if k < len(b) {
+		b = b[:k]
+	}
+	return p.rs.Read(b)
+}
+func (p *seekPatternReader) Seek(off int64, whence int) (int64, error) { return p.rs.Seek(off, whence) }
+
 func blockSetKey(st *Store) string {
 	var ks []string
 	for c, b := range st.Blocks {
@@ -89,6 +107,35 @@ func TestC10_P_Deterministic(t *testing.T) {
 			run(fmt.Sprintf("fragments%v", pattern), func(st *Store) (cid.Cid, uint64, error) {
 				return buildFileR(st.LinkSystem(), &patternReader{r: bytes.NewReader(content), pattern: pattern}, ck.Name, w)
 			})
+			run(fmt.Sprintf("seekable-fragments%v", pattern), func(st *Store) (cid.Cid, uint64, error) {
+				return buildFileR(st.LinkSystem(), &seekPatternReader{rs: bytes.NewReader(content), pattern: pattern}, ck.Name, w)
+			})
+			// the default chunker (the names "" and "default") must not care either how - or by what kind of reader - its
+			// bytes are delivered; these files are a single chunk
+			{
+				dname := rapid.SampledFrom([]string{"", "default"}).Draw(t, "defaultChunkerName")
+				var first cid.Cid
+				var firstSize uint64
+				for i, src := range []func() io.Reader{
+					func() io.Reader { return bytes.NewReader(content) },
+					func() io.Reader { return &patternReader{r: bytes.NewReader(content), pattern: pattern} },
+					func() io.Reader { return &seekPatternReader{rs: bytes.NewReader(content), pattern: pattern} },
+					func() io.Reader { return iotest.OneByteReader(bytes.NewReader(content)) },
+				} {
+					var c cid.Cid
+					var sz uint64
+					var err error
+					must(t, "default chunker build", func() { c, sz, err = buildFileR(NewStore().LinkSystem(), src(), dname, w) })
+					if err != nil {
+						t.Fatalf("C10 file: default chunker %q, source #%d: %v", dname, i, err)
+					}
+					if i == 0 {
+						first, firstSize = c, sz
+					} else if c != first || sz != firstSize {
+						t.Fatalf("C10 file: %d bytes with the default chunker (%q): source #%d (0 bytes.Reader, 1 fragmenting %v, 2 seekable + fragmenting, 3 one byte at a time) gave %s/%d, the plain reader %s/%d", len(content), dname, i, pattern, c, sz, first, firstSize)
+					}
+				}
+			}
 			wrap := rapid.SampledFrom([]string{"OneByteReader", "HalfReader", "DataErrReader"}).Draw(t, "iotest")
 			run(wrap, func(st *Store) (cid.Cid, uint64, error) {
 				var r io.Reader = bytes.NewReader(content)
